@@ -166,6 +166,12 @@ def step (st : RawTable) (ws : List String) : RawTable × String :=
       let ms := maskModes nd m
       (st, s!"{evalBits st prec xs cs ms} {exactPart st xs cs ms}")
     | _, _, _ => (st, "bad-input")
+  | "U" :: prec :: mask :: rest =>
+    match mask.toNat?, bitsList (rest.take nd), natList (rest.drop nd) with
+    | some m, some xs, some cs =>
+      if xs.length ≠ nd || cs.length ≠ nd then (st, "bad-input") else
+      (st, s!"{evalBits st prec xs cs (maskModes nd m)}")
+    | _, _, _ => (st, "bad-input")
   | "B" :: prec :: mask :: rest =>
     match mask.toNat?, bitsList (rest.take nd), natList (rest.drop nd) with
     | some m, some xs, some cs =>
